@@ -191,6 +191,8 @@ def objective_value(obj, rows):
 def work(unit):
     import importlib
 
+    import cotengra as ctg
+
     pb = importlib.import_module("cotengra.pathfinders.path_basic")
     n, gi, tier, seed, part, parts = unit
     edges = graphs(n)[gi]
@@ -236,8 +238,12 @@ def work(unit):
                 for outer in (False, True):
                     best = min(vals_all) if outer else min(vals_free)
                     for cap in caps:
-                        for entry in ("fn", "cls"):
-                            if entry == "cls" and cap not in (2, 10**12):
+                        for entry in ("fn", "cls", "cls-percall",
+                                      "preset-path", "preset-tree"):
+                            if entry != "fn" and cap not in (2, 10**12):
+                                continue
+                            if entry.startswith("preset") and (
+                                    obj != "flops" or cap != 10**12):
                                 continue
                             res.evals += 1
                             case = {"inputs": inputs, "output": output,
@@ -249,11 +255,30 @@ def work(unit):
                                     path = pb.optimize_optimal(
                                         inputs, output, sd, minimize=obj,
                                         cost_cap=cap, search_outer=outer)
-                                else:
+                                elif entry == "cls":
                                     path = pb.OptimalOptimizer(
                                         minimize=obj, cost_cap=cap,
                                         search_outer=outer, accel=False)(
                                         inputs, output, sd)
+                                elif entry == "cls-percall":
+                                    # an instance configured differently,
+                                    # options given per call
+                                    path = pb.OptimalOptimizer(
+                                        minimize="max" if obj != "max"
+                                        else "size", search_outer=not outer,
+                                        accel=False)(
+                                        inputs, output, sd, minimize=obj,
+                                        cost_cap=cap, search_outer=outer)
+                                elif entry == "preset-path":
+                                    path = ctg.array_contract_path(
+                                        inputs, output, sd, cache=False,
+                                        optimize="optimal-outer" if outer
+                                        else "optimal")
+                                else:
+                                    path = ctg.array_contract_tree(
+                                        inputs, output, sd,
+                                        optimize="optimal-outer" if outer
+                                        else "optimal").get_path()
                                 steps = interp_linear(path, n)
                                 rows = [(rc.flops(l, r), rc.size(p))
                                         for p, l, r in steps]
@@ -309,11 +334,27 @@ def replay(case):
             path = pb.optimize_optimal(inputs, output, sd, minimize=obj,
                                        cost_cap=case["cost_cap"],
                                        search_outer=outer)
-        else:
+        elif case["entry"] == "cls":
             path = pb.OptimalOptimizer(minimize=obj,
                                        cost_cap=case["cost_cap"],
                                        search_outer=outer, accel=False)(
                 inputs, output, sd)
+        elif case["entry"] == "cls-percall":
+            path = pb.OptimalOptimizer(
+                minimize="max" if obj != "max" else "size",
+                search_outer=not outer, accel=False)(
+                inputs, output, sd, minimize=obj,
+                cost_cap=case["cost_cap"], search_outer=outer)
+        else:
+            import cotengra as ctg
+
+            preset = "optimal-outer" if outer else "optimal"
+            if case["entry"] == "preset-path":
+                path = ctg.array_contract_path(inputs, output, sd,
+                                               cache=False, optimize=preset)
+            else:
+                path = ctg.array_contract_tree(inputs, output, sd,
+                                               optimize=preset).get_path()
         steps = interp_linear(path, n)
         got = objective_value(
             obj, [(rc.flops(l, r), rc.size(p)) for p, l, r in steps])
